@@ -64,6 +64,42 @@ func TestVerifC06(t *testing.T) {
 		}
 	}
 
+	// long-lived objects: ONE Block / AEAD per family serves a random sequence of messages of all
+	// length classes, each compared with the model (state must not leak from call to call)
+	for _, asm := range paths() {
+		asm := asm
+		withAsm(asm, func() {
+			pn := pathName(asm)
+			for fam := 0; fam < 6; fam++ {
+				nl, tag := []int{12, 12, 12, 17, 129, 1}[fam], []int{16, 12, 14, 16, 16, 16}[fam]
+				key := rng.Bytes(16)
+				a, err := newAEAD(key, nl, tag)
+				if err != nil {
+					continue
+				}
+				g := ref.NewGCM(key)
+				for step := 0; step < hk.N(150, 1500); step++ {
+					nonce := rng.Bytes(nl)
+					aad := rng.Bytes(rng.Pick(lenClasses[:20]))
+					pt := rng.Bytes(rng.Pick(lenClasses))
+					want := g.Seal(nonce, pt, aad, tag)
+					got := a.Seal(nil, nonce, pt, aad)
+					if !bytes.Equal(got, want) {
+						r.Violation(fmt.Sprintf("seal-differs-from-sp800-38d:%s:long-lived-aead", pn), hk.D{"step": step, "key": hk.Hex(key), "nonce": hk.Hex(nonce), "aad": clip(aad), "pt": clip(pt), "tag_size": tag})
+						break
+					}
+					if step%3 == 0 {
+						back, err := a.Open(nil, nonce, got, aad)
+						if err != nil || !bytes.Equal(back, pt) {
+							r.Violation(fmt.Sprintf("open-fails-on-own-seal:%s:long-lived-aead", pn), hk.D{"step": step})
+							break
+						}
+					}
+				}
+				r.EvalN(fmt.Sprintf("%s|long-lived-aead|nonce=%d,tag=%d", pn, nl, tag), hk.N(150, 1500))
+			}
+		})
+	}
 	for _, asm := range paths() {
 		asm := asm
 		withAsm(asm, func() {
